@@ -62,6 +62,9 @@ func (r *Rand) Bytes(n int) []byte {
 }
 func (r *Rand) Fork() *Rand { return &Rand{s: r.U64()} }
 
+// Clone returns an independent copy at the same position of the stream.
+func (r *Rand) Clone() *Rand { return &Rand{s: r.s} }
+
 // ---------------------------------------------------------------- hex args of the line protocol
 
 func Hex(b []byte) string {
